@@ -13,7 +13,8 @@ META = {
     "technique": "bounded symbolic execution (CrossHair/z3) of the real directory handlers and protocol handle() over an in-memory VFS with symbolic fault positions and kinds",
     "claim": "For a pool of up to 4 children the real DirHandler/UMNDirHandler.prepare (and each protocol's handle()) are executed with one or two "
     "children made unservable at symbolic positions with symbolic fault kinds; on every path the listing succeeds and contains every healthy "
-    "child in the fault-free relative order. Exhaustive over positions x kinds x pairs within the pool bound.",
+    "child in the fault-free relative order. Exhaustive over positions x kinds x pairs within the pool bound."
+    " Also with dot-named unservable entries (which the UMN handler would read as link files) and with entry names that sit on handler-selection predicates or contain format characters, the message for the skipped entry being built by the real code.",
     "trusted": "CrossHair/z3; MemVFS stands for the OS (stat/listdir/open answers); fault kinds are stat errnos, special-file modes and rejected names.",
     "explanation": "Fault enumeration with symbolic (position, kind) pairs through the real directory handlers over an in-memory VFS.",
     "assumptions": [
